@@ -28,6 +28,7 @@ type nullTransport struct {
 	sentTo   []string
 	dialer   func(addr string) (net.Conn, error)
 	failTo   string // writes to this address fail with a local error
+	failOp   bool   // ... with a udp write *net.OpError instead (an error that blames the remote side)
 }
 
 func newNullTransport() *nullTransport {
@@ -38,6 +39,9 @@ func (t *nullTransport) FinalAdvertiseAddr(ip string, port int) (net.IP, int, er
 }
 func (t *nullTransport) WriteTo(b []byte, addr string) (time.Time, error) {
 	if t.failTo != "" && addr == t.failTo {
+		if t.failOp {
+			return time.Time{}, &net.OpError{Op: "write", Net: "udp", Err: fmt.Errorf("connection refused")}
+		}
 		return time.Time{}, fmt.Errorf("write udp: network is unreachable")
 	}
 	t.mu.Lock()
@@ -59,11 +63,11 @@ func (t *nullTransport) Shutdown() error           { return nil }
 // ---- recording delegates ----
 
 type recorder struct {
-	mu   sync.Mutex
-	outs []string
-	pool *addrPool
-	veto bool // alive delegate verdict for the current call
-	meta []byte
+	mu         sync.Mutex
+	outs       []string
+	pool       *addrPool
+	veto       bool // alive delegate verdict for the current call
+	meta       []byte
 	userMerges int // Delegate.MergeRemoteState calls
 }
 
@@ -118,7 +122,7 @@ func newAddrPool() *addrPool {
 		{10, 0, 1}, // 5: malformed length
 		{0x20, 0x01, 0x0d, 0xb8, 0, 0, 0, 0, 0, 0, 0, 0, 0, 0, 0, 1}, // 6: IPv6 outside
 		{0xfd, 0, 0, 0, 0, 0, 0, 0, 0, 0, 0, 0, 0, 0, 0, 7},          // 7: IPv6 inside fd00::/8
-		nil, // 8: absent address (nil, as decoded from a message without Addr)
+		nil,             // 8: absent address (nil, as decoded from a message without Addr)
 		{10, 0, 32, 1},  // 9: next to 10.0.0.0/22 (inside a /18)
 		{10, 0, 3, 200}, // 10: inside 10.0.0.0/22
 		{128, 0, 0, 1},  // 11: outside 0.0.0.0/1
@@ -193,8 +197,23 @@ var allowLists = [][]string{
 	{"10.0.0.0/30", "10.0.0.8/29"},
 }
 
+// altNets rewrites IPv4 networks as net.IPNet{IP: 16-byte form, Mask: 4-byte mask} - what
+// net.IPNet{IP: net.ParseIP("10.0.0.0"), Mask: net.CIDRMask(8, 32)} builds; Contains treats both forms alike.
+func altNets(nets []net.IPNet) []net.IPNet {
+	out := make([]net.IPNet, 0, len(nets))
+	for _, n := range nets {
+		if ip4 := n.IP.To4(); ip4 != nil && len(n.Mask) == 4 {
+			out = append(out, net.IPNet{IP: ip4.To16(), Mask: n.Mask})
+		} else {
+			out = append(out, n)
+		}
+	}
+	return out
+}
+
 type mcfg struct {
 	alist     int
+	altRep    bool // allow-list networks handed over in the other valid in-memory form (see altNets)
 	allowlist bool
 	reclaim   bool
 	aliveDel  bool
@@ -273,6 +292,9 @@ func newMnode(c mcfg) (*mnode, error) {
 			return nil, err
 		}
 		conf.CIDRsAllowed = nets
+		if c.altRep {
+			conf.CIDRsAllowed = altNets(nets)
+		}
 		mn.nets = nets
 	}
 	m, err := ml.Create(conf)
@@ -339,7 +361,11 @@ func (mn *mnode) observe(opStart time.Time) string {
 			mn.timers = append(mn.timers, t.Handle)
 		}
 		sort.Strings(t.Confirmers)
-		ts = append(ts, fmt.Sprintf("%s/%d/%d/%s", name, t.K, t.N, strings.Join(t.Confirmers, "+")))
+		kk := t.K
+		if kk < 0 {
+			kk = 0 // SuspicionMult 1: k = -1 behaves like 0 (minimum timeout, no confirmation counted)
+		}
+		ts = append(ts, fmt.Sprintf("%s/%d/%d/%s", name, kk, t.N, strings.Join(t.Confirmers, "+")))
 	}
 	outs := mn.rec.take()
 	bs := ml.VerifBroadcasts(mn.m)
@@ -389,6 +415,8 @@ type mop struct {
 	addr, port int
 	md, vsn    int
 	boot, veto bool
+	viaPkt     bool // alive delivered through handleAlive instead of a direct aliveNode call
+	portless   bool // ... with Port = 0 on the wire when the claimed port is the configured one
 	entries    []mentry
 	timer      int
 }
@@ -422,7 +450,20 @@ func (mn *mnode) apply(o mop) (tok string, panicked bool) {
 		mn.rec.veto = o.veto
 		al := mn.allowed(p.addrs[o.addr])
 		tok = fmt.Sprintf("A:%s:%d:%d:%d:%d:%s:%d:%d:%d", o.node, o.inc, o.addr, o.port, o.md, vsnStr(vsnPool[o.vsn]), b2i(o.boot), b2i(al), b2i(!o.veto))
-		ml.VerifAliveNode(mn.m, o.inc, o.node, p.addrs[o.addr], uint16(7946+o.port), mdPool[o.md], vsnPool[o.vsn], nil, o.boot)
+		if o.viaPkt && !o.boot {
+			// through handleAlive, as packetHandler delivers a queued alive message; a message without a
+			// port (Port = 0 on the wire) means "the configured port"
+			port := uint16(7946 + o.port)
+			if o.port == 0 && o.portless {
+				port = 0
+			}
+			body := ml.VerifEncodeAlive(o.inc, o.node, p.addrs[o.addr], port, mdPool[o.md], vsnPool[o.vsn])
+			if ml.VerifHandleQueued(mn.m, 4, body[1:], &net.UDPAddr{IP: net.IPv4(10, 0, 0, 1), Port: 7946}) {
+				panic("handleAlive panicked")
+			}
+		} else {
+			ml.VerifAliveNode(mn.m, o.inc, o.node, p.addrs[o.addr], uint16(7946+o.port), mdPool[o.md], vsnPool[o.vsn], nil, o.boot)
+		}
 	case 'S':
 		tok = fmt.Sprintf("S:%s:%d:%s", o.node, o.inc, o.from)
 		ml.VerifSuspectNode(mn.m, o.inc, o.node, o.from)
@@ -457,18 +498,24 @@ func (mn *mnode) apply(o mop) (tok string, panicked bool) {
 		mn.rec.veto = false
 		tok = fmt.Sprintf("U:%d", o.md)
 		done := make(chan error, 1)
-		go func() { done <- mn.m.UpdateNode(time.Millisecond) }()
+		go func() { defer panicsAsNil(done); done <- mn.m.UpdateNode(time.Millisecond) }()
 		select {
-		case <-done:
+		case err := <-done:
+			if err == errPanicked {
+				tok += "!blocked"
+			}
 		case <-time.After(5 * time.Second):
 			tok += "!blocked"
 		}
 	case 'L':
 		tok = "L"
 		done := make(chan error, 1)
-		go func() { done <- mn.m.Leave(time.Millisecond) }()
+		go func() { defer panicsAsNil(done); done <- mn.m.Leave(time.Millisecond) }()
 		select {
-		case <-done:
+		case err := <-done:
+			if err == errPanicked {
+				tok += "!blocked"
+			}
 		case <-time.After(5 * time.Second):
 			tok += "!blocked"
 		}
@@ -477,6 +524,16 @@ func (mn *mnode) apply(o mop) (tok string, panicked bool) {
 		ml.VerifSetStateChange(mn.m, o.node, time.Now().Add(-2*time.Hour))
 	}
 	return tok, false
+}
+
+// panicsAsNil: an API call that panics on its own goroutine would take the whole harness down; it
+// is reported like a call that never came back (the op token gets "!blocked").
+var errPanicked = fmt.Errorf("panicked")
+
+func panicsAsNil(done chan error) {
+	if rec := recover(); rec != nil {
+		done <- errPanicked
+	}
 }
 
 // runHistory creates a node, applies ops, and emits one line.
@@ -540,7 +597,8 @@ func randomOp(r *rng, c mcfg, selfBias int, ntimers *int) mop {
 	switch {
 	case k < 34:
 		return mop{kind: 'A', node: name, inc: genInc(r, true), addr: addr, port: b2i(r.chance(1, 8)), md: r.intn(3),
-			vsn: []int{0, 0, 0, 0, 1, 2, 3, 4, 5, 6}[r.intn(10)], boot: false, veto: c.aliveDel && r.chance(1, 6)}
+			vsn: []int{0, 0, 0, 0, 1, 2, 3, 4, 5, 6}[r.intn(10)], boot: false, veto: c.aliveDel && r.chance(1, 6),
+			viaPkt: r.chance(1, 4), portless: r.chance(1, 2)}
 	case k < 50:
 		return mop{kind: 'S', node: name, inc: genInc(r, true), from: from}
 	case k < 66:
@@ -573,7 +631,7 @@ func randomOp(r *rng, c mcfg, selfBias int, ntimers *int) mop {
 
 func randomCfg(r *rng) mcfg {
 	return mcfg{allowlist: r.chance(1, 3), reclaim: r.chance(1, 2), aliveDel: r.chance(1, 4),
-		awareMax: []int{8, 8, 1, 2}[r.intn(4)], suspMult: []int{4, 4, 2, 3, 6}[r.intn(5)]}
+		awareMax: []int{8, 8, 1, 2}[r.intn(4)], suspMult: []int{4, 4, 2, 3, 6, 1}[r.intn(6)]}
 }
 
 func randomHistory(prop string, r *rng, id string, selfBias, maxOps int) {
